@@ -24,7 +24,12 @@ import JSight.SchemaNoCrash
 * `C07_render_total`: producing the `Error()` text never indexes outside the content.
 * template / argument agreement at every error construction site: `JSight.Tie.Errors` over the table
   regenerated from /repo's source on every run.
-The API surface above the scanners is explored, not proved (harness `api-fuzz`).
+* the panic / recover discipline above the scanners (static half of part 4): `JSight.Tie.Panics` over
+  `JSight.Generated.PanicFacts`, regenerated from /repo's source on every run by `vh tgen-panics` - every public
+  entry is guarded or reviewed, every panic value is an error or a reviewed invariant, no handler swallows, the
+  boundary handlers return errors and re-panic non-errors, every non-error panic site is unreachable unconverted
+  or reviewed with dynamic evidence.
+The behaviour of the API surface above the scanners is explored, not proved (harness `api-fuzz`, `c07-entries`).
 -/
 namespace Props.C07
 open JsonScan
